@@ -718,19 +718,28 @@ pub fn c07(seed: u64, thorough: bool) -> Scenario {
     // One of the other nodes crashes around the heal (within f): from then on the lagging node's
     // votes are needed, every request to the crashed node stays unanswered, and each timed-out
     // round brings another block on top of the same missing parent.
+    // A crashed peer never answers: each backward step of the catch-up through one of its blocks
+    // costs the retry delay rounded up to the retry timer's 5 s granularity. The deadline allows
+    // for `slow_steps` of them; the oracle does not judge runs whose gap needs more.
+    let retry = b.sc.params[0].sync_retry_delay * 1_000;
+    let slow_period = (retry / 5_000_000 + 1) * 5_000_000 + 500_000;
     if b.sc.bounds.deaf.is_none() && b.r.chance(0.25) {
         // Content-triggered crash: the author of the first proposal that reaches the lagger
         // after the heal dies at that instant.
         b.sc.bounds.crash_first_proposer = true;
-        deaf_extra += 6 * b.t_us + 8_000_000;
+        b.sc.bounds.slow_steps = 6;
+        deaf_extra += 6 * b.t_us + 8_000_000 + 6 * slow_period;
     } else if b.sc.bounds.deaf.is_none() && b.r.chance(0.4) {
         let victim = (lagger + 1 + b.r.below(b.sc.n - 1)) % b.sc.n;
         // Mostly right after the heal: the victim's proposals still reach the lagger, then it is gone.
         let t = if b.r.chance(0.7) { heal + b.r.range(0, b.t_us) } else { b.r.range(heal.saturating_sub(b.t_us), heal + 3 * b.t_us) };
         b.crash(victim, t);
-        deaf_extra += 4 * b.t_us;
+        b.sc.bounds.slow_steps = 6;
+        deaf_extra += 4 * b.t_us + 6 * slow_period;
     }
-    let retry = b.sc.params[0].sync_retry_delay * 1_000;
+    // A backward jump of the wall clock postpones the retry of a pending request by its size.
+    let back: u64 = b.sc.net.clock_jumps.iter().filter(|(_, d)| *d < 0).map(|(_, d)| (-*d) as u64 * 1_000).sum();
+    deaf_extra += back;
     let window = 6 * b.t_us + retry + 7_000_000;
     let reconnect = (2 * len).max(1_000_000).min(62_000_000);
     b.sc.bounds.lagger = Some(lagger);
